@@ -902,6 +902,18 @@ def check_simplex_model(ctx, simplex, systems, label):
                 qs.append(["le", [[100 + i, -c] for i, c in enumerate(r[:-1]) if c != 0], r[-1]])
         lines.append(sexp.dumps(["simplex", SIMPLEX_FUEL, qs]))
     out = ctx.lean_driver(EXE, lines) if lines else []
+    # monitor of the one hypothesis the termination theorem still assumes (BlandNoRepeat): on the model,
+    # which is compared with the real code step by step here, no configuration repeats within a check()
+    mon = ctx.lean_driver(EXE, [l.replace("(simplex ", "(norepeat ", 1) for l in lines]) if lines else []
+    if mon is not None:
+        for (rows, enc, _), ml in zip(runs, mon):
+            x = sexp.loads(ml)
+            if x == "bad-op":
+                continue
+            ctx.count("bland:no-repeat-checked")
+            ctx.coverage["bland_max_pivots_in_one_check"] = max(ctx.coverage.get("bland_max_pivots_in_one_check", 0), int(x[1]))
+            if x[0] != "T":
+                ctx.broken("hypothesis:c16:BlandNoRepeat", "a configuration repeats within one check() of the model on rows=%s enc=%s" % (rows, enc))
     ndis = 0
     for idx, (rows, enc, (outcome, atoms, init, snaps)) in enumerate(runs):
         nv = len(rows[0]) - 1
@@ -1627,7 +1639,7 @@ def run(ctx):
     ctx.log("strict simplex stream done (%d)" % len(sys4))
     # 5. proof terms
     rng = ctx.rng("omegahol")
-    sys5 = [gen_system(rng) for _ in range(ctx.scale(400, 2000))]
+    sys5 = [gen_system(rng) for _ in range(ctx.scale(400, 1500))]
     check_omega_hol(ctx, sys5, "random")
     ctx.log("OmegaHOL stream done (%d)" % len(sys5))
     rng = ctx.rng("simplexhol")
@@ -1636,7 +1648,7 @@ def run(ctx):
     check_simplex_hol(ctx, sys6, "random")
     ctx.log("SimplexHOLWrapper stream done (%d)" % len(sys6))
     rng = ctx.rng("macros")
-    sys7 = [gen_small(rng) for _ in range(ctx.scale(80, 800))]
+    sys7 = [gen_small(rng) for _ in range(ctx.scale(80, 400))]
     check_macros(ctx, sys7, "random")
     ctx.log("HOL macro stream done (3 x %d)" % len(sys7))
 
@@ -1737,8 +1749,11 @@ MANIFEST = {
             "proof-producing wrapper (its answers: Z3 and exact witness evaluation), the "
             "proof-producing wrappers and the macros simplex_macro / strict_simplex_macro / integer_simplex (every proof term they return "
             "is checked by theory.check_proof: concludes false, no gaps, hypotheses literally among the given terms; Z3 confirms the verdict). "
-            "Termination of check under Bland's rule is NOT proved in Lean (check_fuel_independent only says that the answer does not "
-            "depend on the fuel once it is not 'fuel'); completeness of the Omega test for exact eliminations was not attempted. Both are stated assumptions. In addition every answer of the real Simplex is judged per run: "
+            "Termination of check under Bland's rule: check is shown to be the iteration of an explicit step (check_unfolds_step); "
+            "configurations (basic / at lower / at upper / elsewhere per variable) are finite with the explicit bound confBound = 4^#occurrences; "
+            "check_terminates_of_no_repeat: if no configuration repeats along the run, check answers within confBound+1 steps; "
+            "check_terminates_bland_partial: termination (and fuel independence) for every state with the tableau invariant under the ONE "
+            "named hypothesis BlandNoRepeat (no configuration repeats under Bland's rule - Dutertre/de Moura's argument, NOT proved in Lean; proved only at distance one: bland_no_repeat_adjacent_partial; monitored on every run: no repeat in any check() of the model runs that are compared step by step with the real code); traj_preserves_inv / step_changes_only_entering are ingredients already proved; completeness of the Omega test for exact eliminations was not attempted. In addition every answer of the real Simplex is judged per run: "
             "witnesses go through checkWitness(Q), 'unsatisfiable' answers are certified by checkFarkas whenever Farkas multipliers "
             "can be read from the solver's explanation (internal fields; if not, or if they do not check, the verdict is decided by Z3 - only "
             "a wrong verdict is a violation), branch-and-bound / strict verdicts are compared with Z3 and brute force. OmegaHOL "
